@@ -15,6 +15,7 @@ CONSTANTS MaxLenP = 2
 INIT Init
 NEXT Next
 INVARIANT PShape
+INVARIANT PInputs
 INVARIANT PNoCross
 INVARIANT PIdem
 INVARIANT PRefines
